@@ -35,11 +35,11 @@ CHECKS = {
          "Same probe generator as C02 on the regions Cranelift knows; in bounds => exact value / stored bytes; out of bounds => the child must die in the trap (SIGILL) with every byte of the arenas unchanged (checked inside the signal handler); a normal return, SIGSEGV or changed byte is a violation. Exploration (exhaustive within the windows in the thorough tier).",
          "A trap surfaces as SIGILL; guard pages turn performed out-of-region reads into faults.",
          "DESIGN.md section 3, C11"),
- "C05": ("proptest crash oracle over verifier-accepted near-valid byte strings and mutated structured programs, interpreted in a forked child under catch_unwind with an instruction budget",
+ "C05": ("proptest crash oracle over verifier-accepted near-valid byte strings and mutated structured programs, interpreted in a forked child under catch_unwind with an instruction budget; thorough tier adds a coverage-guided libFuzzer campaign (cargo-fuzz, ASan) with the same oracle inside the target",
          "Acceptance by the real verifier is the premise; every accepted program runs on a random VM kind / packet / metadata / helper set; Ok, Err and budget exhaustion are fine, a panic, abort or fatal signal is a violation (signature = panic location). Thorough adds 30x the cases. Exploration.",
          "Budget exhaustion stands for 'keeps running'; the child process isolates crashes.",
          "DESIGN.md section 3, C05"),
- "C12": ("proptest crash + repeatability oracle: jit_compile / cranelift_compile twice in a forked child under catch_unwind, byte-identical JIT output through hook H2",
+ "C12": ("proptest crash + repeatability oracle: jit_compile / cranelift_compile twice in a forked child under catch_unwind, byte-identical JIT output through hook H2; thorough tier adds a coverage-guided libFuzzer campaign (cargo-fuzz, ASan) with the same oracle inside the target",
          "Verifier-accepted near-valid strings, mutated structured programs, 32k-100k-instruction programs and the 1,000,000-instruction limit case are compiled twice by each compiler; the oracle is Ok/Err without panic or signal, equal verdicts, and identical JIT code bytes. Exploration.",
          "rbpf's own emit bounds assertion (debug assertions on) and process death detect overruns of the sized buffer; Cranelift code is not compared byte for byte.",
          "DESIGN.md section 3, C12"),
@@ -59,7 +59,7 @@ CHECKS = {
          "Generated programs with 1-4 call sites at local-call depth 0-3, boundary helper ids, registered and unregistered, junk in unused call fields; the observed log (which function, how often, argument order), stack alignment at entry, result and preserved registers are compared with the model; unregistered ids must be a run-time Err (interpreter, only if reached) or a compile-time Err (both compilers). Exploration.",
          "Alignment is read from rsp captured by a two-instruction assembly stub in front of each helper; Rust-ABI == C-ABI for five u64 arguments on x86-64.",
          "DESIGN.md section 3, C08"),
- "C06": ("proptest differential against an independent reference verifier over near-valid byte strings (both directions: false accepts and false rejects)",
+ "C06": ("proptest differential against an independent reference verifier over near-valid byte strings (both directions: false accepts and false rejects); thorough tier adds a coverage-guided libFuzzer campaign (cargo-fuzz, ASan) with the same oracle inside the target",
          "Near-valid byte strings (well-formed by construction, then 0-2 targeted mutations) and random strings are fed to the default verifier through new()/set_program() of all four VM kinds and compared with a reference verifier written from the property statement; every rule is exercised from both sides and the per-rule near-miss histogram is reported. Sampled, not exhaustive: exploration.",
          "Trusts harness/vrun/src/refver.rs as the statement of well-formedness.",
          "DESIGN.md section 3, C06"),
@@ -67,15 +67,15 @@ CHECKS = {
          "Texts over every documented mnemonic, operand shape, register, offset and immediate class and number spelling are assembled and compared byte for byte with what a reference assembler over the abstract syntax says they denote; invalid texts must be rejected. Exploration.",
          "Trusts harness/vrun/src/asmref.rs (mnemonic table from README/tests) and the reference encoder.",
          "DESIGN.md section 3, C13"),
- "C14": ("proptest crash oracle (catch_unwind) over token soup, arbitrary Unicode and mutated valid texts",
+ "C14": ("proptest crash oracle (catch_unwind) over token soup, arbitrary Unicode and mutated valid texts; thorough tier adds a coverage-guided libFuzzer campaign (cargo-fuzz, ASan) with the same oracle inside the target",
          "Totality is attacked with generators aimed at the parser's numeric conversions (literal lengths 1-80, all sign combinations, values around 2^63/2^64, huge register numbers) plus arbitrary strings and mutations of valid programs; the oracle is that assemble() returns. Exploration.",
          "A panic must unwind to be observed (harness built with panic=unwind); time bound is a 2 s per-call watchdog reported as inconclusive.",
          "DESIGN.md section 3, C14"),
- "C15": ("proptest validity predicate: disassembler output vs independent decoder, mnemonic table and a parser of the assembler syntax",
+ "C15": ("proptest validity predicate: disassembler output vs independent decoder, mnemonic table and a parser of the assembler syntax; thorough tier adds a coverage-guided libFuzzer campaign (cargo-fuzz, ASan) with the same oracle inside the target",
          "Instruction streams over every opcode, all register nibbles, extreme offsets and immediates are disassembled; each entry's fields, merged immediate, name and parsed text are compared with the reference decoding (thorough: every opcode x all 65536 offsets enumerated). Exploration.",
          "Trusts the reference decoder and mnemonic table in isa.rs and the desc parser in asmref.rs; cosmetic text differences are tolerated by design.",
          "DESIGN.md section 3, C15"),
- "C16": ("proptest round trip disassemble -> assemble, with a canonical-form oracle for non-expressible programs",
+ "C16": ("proptest round trip disassemble -> assemble, with a canonical-form oracle for non-expressible programs; thorough tier adds a coverage-guided libFuzzer campaign (cargo-fuzz, ASan) with the same oracle inside the target",
          "Expressible canonical programs must round-trip exactly; for any other program an accepted text must assemble to the canonical form. Exploration.",
          "Canonical form is defined by the used-field table in isa.rs.",
          "DESIGN.md section 3, C16"),
@@ -125,6 +125,8 @@ def main():
             "add_only": True,
         },
         "engines": [
+            {"name": "fuzzroot", "path": "/verif/fuzzroot/fuzz", "serves_properties": ["C05", "C06", "C12", "C14", "C15", "C16"],
+             "kind_free_text": "cargo-fuzz project with five libFuzzer targets (semantic oracle inside each target); driven by vrun in the thorough tier, crash artifacts become replay files"},
             {"name": "vrun-nostd", "path": "/verif/harness-nostd", "serves_properties": ["C20"],
              "kind_free_text": "second binary linking rbpf with default features off (no_std) + verif-hooks; evaluates corpus lines and prints a transcript"},
             {"name": "vrun", "path": "/verif/harness/vrun", "serves_properties": sorted(CHECKS.keys()),
